@@ -113,3 +113,8 @@ package snowflake_server
 //@   requires pconn != nil
 //@   loop 1 invariant true
 //@   at call OutgoingQueue assert {downstream-taken-from-this-client-ids-queue} unbox(arg1, turbotunnel.ClientID) == clientID && arg0 == pconn
+//
+// ---- lock discipline (C20) ----
+//@ guarded clientIDMap.entries by lock
+//@ guarded clientIDMap.oldest by lock
+//@ guarded clientIDMap.current by lock
